@@ -361,10 +361,10 @@ Fixpoint find_term (fuel : nat) (msg : bytes) (ts : bytes) (orig pos maxpos : Z)
 Definition enc_dct (d : dct) (v : value) (s : estate) : res estate :=
   match d with
   | Std bt en hl bl mask =>
-    (* the used mask is built for the declared byte order *)
+    (* the used mask is handed over in big endian byte order; emplace_atomic applies the byte
+       order of the object to it (since the fix commit; before, it was byte-swapped twice) *)
     do v' <- std_apply_mask mask v;
     let um := std_used_mask mask bl v in
-    let um := if negb hl && is_numeric bt then option_map (@rev Z) um else um in
     emplace_atomic s v' bl bt en hl um
   | MinMax bt en hl minl maxl tm =>
     do raw <- match v with
